@@ -40,17 +40,26 @@ CONSTANTS N,         \* object numbers 1..N
           MaxOut,    \* out-degree of container nodes
           Travs,     \* traversals explored
           Guards,    \* cycle guards in force: subset of AllGuards
+          PathGuards,\* those of them that only remember the objects *being* visited (the ancestors of the current one):
+                     \* they cut cycles, but an object reachable along several paths is walked once per path
+          Family,    \* "all": every canonical graph on N objects;  "diamond": the one chain of N containers in which
+                     \* both references of each container lead to the next one (2**N paths, 2N edges)
           C          \* the constant of the bound
 
 Nodes == 1..N
 Targets == 0..N
-AllTravs == {"resolve1", "accessor", "resolve_all", "getobj", "xrefchain", "pagetree", "numtree", "nametree", "outline"}
+AllTravs == {"resolve1", "accessor", "resolve_all", "getobj", "xrefchain", "pagetree", "numtree", "nametree", "outline",
+             "form"}
 AllGuards == AllTravs
 \* The guards the code has today: pdfpage.create_pages keeps a visited set; every other guard is missing as long as
 \* the corresponding named deviation is in force (known_findings/C13.json carries them as "dev": "robust:<Name>"):
 \*   Resolve1NoCycleGuard (resolve1, accessor)  ResolveAllNoGuard  GetobjNoReentryGuard  XRefChainNoGuard
 \*   NumTreeNoGuard  NameTreeNoGuard  OutlineNoGuard
-\* harness/props/c13_graphs.py computes Guards from them for the as-coded runs; Intended == AllGuards.
+\*   ResolveAllPathGuardOnly (resolve_all remembers the enclosing objects only: PathGuards)
+\* harness/props/c13_graphs.py computes Guards / PathGuards from them for the as-coded runs.  Intended: every traversal
+\* guarded, and by a guard that remembers every object visited - except "form" (PDFPageInterpreter.do_Do over the
+\* /XObject resources a form invokes): painting a form twice is what the document asks for, so a path guard (the set of
+\* forms being rendered) is the intended one and the diamond family does not apply to it.
 
 OutSeqs == UNION {[1..k -> Targets] : k \in 0..MaxOut}
 Values == {[k |-> "ref", out |-> <<t>>] : t \in Targets} \cup {[k |-> "leaf", out |-> <<>>]}
@@ -80,8 +89,10 @@ VARIABLES g, built, trav, stack, res, visited, steps, status
 vars == <<g, built, trav, stack, res, visited, steps, status>>
 
 NoRes == [on |-> FALSE, t |-> 0, first |-> 0, seen |-> {}]
-Init == /\ g = [i \in Nodes |-> [k |-> "leaf", out |-> <<>>]]
-        /\ built = 0 /\ trav = "none" /\ stack = <<>> /\ res = NoRes /\ visited = {} /\ steps = 0 /\ status = "build"
+Diamond == [i \in Nodes |-> IF i < N THEN [k |-> "node", out |-> <<i + 1, i + 1>>] ELSE [k |-> "leaf", out |-> <<>>]]
+Init == /\ g = IF Family = "diamond" THEN Diamond ELSE [i \in Nodes |-> [k |-> "leaf", out |-> <<>>]]
+        /\ built = (IF Family = "diamond" THEN N ELSE 0)
+        /\ trav = "none" /\ stack = <<>> /\ res = NoRes /\ visited = {} /\ steps = 0 /\ status = "build"
 
 ABuild == /\ status = "build" /\ built < N
           /\ \E v \in Values : g' = [g EXCEPT ![built + 1] = v]
@@ -146,7 +157,7 @@ AEnter ==
             THEN UNCHANGED <<stack, visited, status>>                        \* leaf / missing: lenient default, return
             ELSE IF Guarded(trav) /\ key \in visited
               THEN UNCHANGED <<stack, visited, status>>                      \* guard: seen before, return
-              ELSE /\ stack' = Append(stack, [n |-> t, i |-> 1])
+              ELSE /\ stack' = Append(stack, [n |-> t, i |-> 1, key |-> key])
                    /\ visited' = IF Guarded(trav) THEN visited \cup {key} ELSE visited
                    /\ UNCHANGED status
   /\ res' = NoRes /\ Tick
@@ -162,9 +173,11 @@ AChild == /\ Running /\ ~res.on /\ stack # <<>>
 AReturn == /\ Running /\ ~res.on /\ stack # <<>>
            /\ stack[Len(stack)].i > Follows(trav, g[stack[Len(stack)].n])
            /\ stack' = SubSeq(stack, 1, Len(stack) - 1)
+           \* a path guard forgets the object when its frame returns
+           /\ visited' = IF trav \in PathGuards THEN visited \ {stack[Len(stack)].key} ELSE visited
            \* lookup_name: a node whose kids all came back empty raises PDFKeyError, which ends the whole lookup
            /\ status' = IF trav = "nametree" THEN "family" ELSE status
-           /\ UNCHANGED <<g, built, trav, res, visited, steps>>
+           /\ UNCHANGED <<g, built, trav, res, steps>>
 AFinish == /\ Running /\ ~res.on /\ stack = <<>>
            /\ status' = "done"
            /\ UNCHANGED <<g, built, trav, stack, res, visited, steps>>
@@ -180,7 +193,7 @@ Spec == Init /\ [][Next]_vars
 BoundOK == status \notin {"hang", "recursion"}
 Terminal == status \in {"done", "family", "hang", "recursion"}
 \* a guarded DFS enters no object twice
-EnterOnce == Guarded(trav) /\ trav # "pagetree" =>
+EnterOnce == Guarded(trav) /\ trav # "pagetree" =>          \* (holds for path guards too: the stack is a path)
                \A i, j \in 1..Len(stack) : i # j => stack[i].n # stack[j].n
 
 Emit == Terminal => PrintT("@@" \o ToJson([g |-> g, trav |-> trav, status |-> status, steps |-> steps,
